@@ -35,3 +35,17 @@ func init() {
 		Assumptions: []string{"64-bit int (GOARCH with 64-bit int) for the narrower-unsigned-conversion argument", "the sanitizer table (CellID.IsValid) states the precondition of face-table lookups"},
 	}
 }
+
+func init() {
+	Properties["C14"] = PropertySpec{
+		Rules: []string{"R-LOCK", "R-WRITERS", "R-GLOBAL"},
+		Explanation: "Race freedom of concurrent read-only queries, reduced to its structural conditions: the status word is atomic, the mutex is balanced and never re-entered, readers take the fast path only after observing 'fresh', " +
+			"'fresh' is published last, and the shared index state is written only under the mutex or by documented single-threaded mutators.",
+		NotCovered: "serial equivalence of the answers themselves; liveness beyond lock re-entrancy; races in caller code.",
+	}
+	Properties["C13"] = PropertySpec{
+		Rules:       []string{"R-LOCK", "R-PANIC", "R-GLOBAL"},
+		Explanation: "History independence, reduced to which state a call can leave behind and whether a sequence can hang or hit an unimplemented path.",
+		NotCovered:  "equality of answers across histories on concrete data.",
+	}
+}
